@@ -88,6 +88,49 @@ fn deep_chain(len: u16, out: &mut Outcome) {
     out.label("deep-dependency-chain");
 }
 
+/// A panic payload whose destructor panics too (unless its thread is already unwinding).
+struct PayloadBomb;
+impl Drop for PayloadBomb {
+    fn drop(&mut self) {
+        if !std::thread::panicking() {
+            panic!("the destructor of a panic payload panics");
+        }
+    }
+}
+/// Loads a number; the number 666 makes the loader panic with a `PayloadBomb`.
+struct Touchy(#[allow(dead_code)] u64);
+impl assets_manager::loader::Loader<Touchy> for Touchy {
+    fn load(content: std::borrow::Cow<[u8]>, _: &str) -> Result<Touchy, assets_manager::BoxedError> {
+        let v: u64 = std::str::from_utf8(&content)?.trim().parse()?;
+        if v == 666 {
+            std::panic::panic_any(PayloadBomb);
+        }
+        Ok(Touchy(v))
+    }
+}
+impl assets_manager::Asset for Touchy {
+    const EXTENSION: &'static str = "tc";
+    type Loader = Touchy;
+}
+
+/// A loader panics during a reload with a payload whose destructor panics when the payload is discarded: whatever
+/// that does to the hot-reloading thread, the hot_reload call in flight returns, and so does the next one.
+fn panicking_payload() {
+    use crate::memsrc::MemSource;
+    use assets_manager::AssetCache;
+    let src = MemSource::new(true);
+    src.tree().put("t", "tc", b"1".to_vec(), Variant::Buffer);
+    let cache = AssetCache::with_source(src.handle());
+    let _ = cache.load::<Touchy>("t");
+    src.tree().put("t", "tc", b"666".to_vec(), Variant::Buffer);
+    src.send(&OwnedEntry::File("t".into(), "tc".into()));
+    std::thread::scope(|s| {
+        // a call that is never answered blocks here for good: the blocked-state detector reports it
+        s.spawn(|| cache.hot_reload());
+    });
+    cache.hot_reload();
+}
+
 /// Threads call hot_reload while another thread switches the ('static) cache to enhance_hot_reloading, at a swept
 /// instant: every call returns ("subsequent calls to hot_reload have no effect" - they still return). The caches
 /// are leaked, as a 'static cache is; their reloaders sleep once the trial is over.
@@ -287,7 +330,7 @@ impl Prop for C08 {
     fn rule(&self) -> String {
         "cases = (1..6 compound nodes whose recipes load leaves and get_cached ANY node - themselves and each other, so that look-up cycles of every length arise - with generated busy work in the loader; \
          1..8 threads each calling hot_reload 20..300 times; 0..3 threads loading and inserting concurrently; bursts of notified edits (single or batched) sent meanwhile; optionally a node that after a rewrite loads 100..1500 never-seen assets within one reload; in a fifth of the cases the source drops its event sender after 0..3 rounds (a watcher that dies: the reloader thread ends and the remaining calls must degrade to no-ops); in a third of the cases 100..600 notifications of one leaf are then sent back to back while one caller keeps calling (one call = one pass: the leaf is read at most once per call); in a quarter 100..500 rounds of {fresh cache whose reloader is parked in the destructor of its source after the sender was dropped, then released at a swept instant against 2..6 callers entering hot_reload}; in a sixth one hot_reload call against 3..6 threads flooding the event channel (the call must be back before 5 million more notifications were sent). \
-         in one case in twelve 2..4 threads call hot_reload on a leaked ('static) cache while another thread calls enhance_hot_reloading at a swept instant (6 trials); Oracle: every call returns (the supervisor's blocked-state detector: all threads asleep with zero CPU while the case is unfinished = deadlock; never a timeout), the process does not abort (worker exit status), \
+         in one case in twelve 2..4 threads call hot_reload on a leaked ('static) cache while another thread calls enhance_hot_reloading at a swept instant (6 trials); in a fifth of the cases a loader panics during a reload with a payload whose own destructor panics; Oracle: every call returns (the supervisor's blocked-state detector: all threads asleep with zero CPU while the case is unfinished = deadlock; never a timeout), the process does not abort (worker exit status), \
          and the reloader never loads or reads while no thread is inside hot_reload (a caller released by somebody else's answer leaves its own request to be served later), and after all callers returned a freshly notified change is still applied within 4000 calls (unless the watcher died). \
          non-trivial = at least two hot_reload requests were in flight at once, or a look-up cycle received an event; distinct = different canonical JSON"
             .into()
@@ -600,6 +643,10 @@ impl Prop for C08 {
         }
         if c.chain > 0 && !out.failed() {
             deep_chain(c.chain, &mut out);
+        }
+        if c.watcher_dies_after.is_some() && !out.failed() {
+            panicking_payload();
+            out.label("panic-payload-with-panicking-destructor");
         }
         if c.chain % 2 == 1 && !out.failed() {
             enhance_races(6, 2 + (c.callers % 3));
